@@ -160,6 +160,37 @@ def numLoop (ctx : Ctx) : NumState → List Char → List Char → Nat →
     | .stop => .ok (st, buf, c :: r, pos)
     | .bad => .error (.unexpected pos (some c))
 
+/-! Linear executable twin of `numLoop` (the definition above appends to its buffer, which is
+    quadratic in the length of the number when run): the buffer is kept reversed. Proved equal and
+    installed with `@[csimp]`, so compiled code runs the twin while every theorem keeps speaking
+    about `numLoop`. -/
+def numLoopFast (ctx : Ctx) : NumState → List Char → List Char → Nat →
+    Except PErr (NumState × List Char × List Char × Nat)
+  | st, rbuf, [], pos => .ok (st, rbuf.reverse, [], pos)
+  | st, rbuf, c :: r, pos =>
+    match numTrans ctx st c with
+    | .to st' => numLoopFast ctx st' (c :: rbuf) r (pos + c.utf8Size)
+    | .stop => .ok (st, rbuf.reverse, c :: r, pos)
+    | .bad => .error (.unexpected pos (some c))
+
+theorem numLoopFast_eq (ctx : Ctx) : ∀ (l : List Char) (st : NumState) (rbuf : List Char) (pos : Nat),
+    numLoopFast ctx st rbuf l pos = numLoop ctx st rbuf.reverse l pos
+  | [], st, rbuf, pos => by simp [numLoopFast, numLoop]
+  | c :: r, st, rbuf, pos => by
+    simp only [numLoopFast, numLoop]
+    split
+    · rw [numLoopFast_eq ctx r]; simp
+    · rfl
+    · rfl
+
+def numLoopImpl (ctx : Ctx) (st : NumState) (buf l : List Char) (pos : Nat) :
+    Except PErr (NumState × List Char × List Char × Nat) :=
+  numLoopFast ctx st buf.reverse l pos
+
+@[csimp] theorem numLoop_eq_impl : @numLoop = @numLoopImpl := by
+  funext ctx st buf l pos
+  simp [numLoopImpl, numLoopFast_eq]
+
 def lexNumber (ctx : Ctx) (s : PS) : Except PErr (List Char × PS) :=
   let bf := s.beginFragment
   let i := bf.1
@@ -395,6 +426,114 @@ def strLoopAux (o : ParseOptions) (bad : Bool) :
       match fuel with
       | [] => .error .panic
       | _ :: fuel' => strLoopAux o bad fuel' a hi r p
+
+/-! Linear executable twin of `strLoopAux`. Every step only APPENDS to the accumulator
+    (`strStep_acc`), so the twin runs each step on the empty accumulator and keeps what was
+    accumulated before reversed; proved equal and installed with `@[csimp]`. -/
+def StrStep.prep (pre : List Char) : StrStep → StrStep
+  | .done a r p q => .done (pre ++ a) r p q
+  | .more a h r p => .more (pre ++ a) h r p
+  | .err e => .err e
+
+theorem flushChar_acc (o : ParseOptions) (acc : List Char) (high : Option (Nat × Nat)) (c : Char)
+    (r : List Char) (pos pn : Nat) :
+    flushChar o acc high c r pos pn = (flushChar o [] high c r pos pn).prep acc := by
+  unfold flushChar
+  split
+  · simp [StrStep.prep]
+  · split <;> simp [StrStep.prep]
+
+theorem noHigh_acc (o : ParseOptions) (acc : List Char) (pe cp : Nat) (r : List Char) (pos : Nat) :
+    noHigh o acc pe cp r pos = (noHigh o [] pe cp r pos).prep acc := by
+  unfold noHigh
+  split
+  · simp [StrStep.prep]
+  · split
+    · simp [StrStep.prep]
+    · split <;> simp [StrStep.prep]
+
+theorem strEscU_acc (o : ParseOptions) (bad : Bool) (acc : List Char) (high : Option (Nat × Nat))
+    (r2 : List Char) (pe pos : Nat) :
+    strEscU o bad acc high r2 pe pos = (strEscU o bad [] high r2 pe pos).prep acc := by
+  unfold strEscU
+  split
+  · simp [StrStep.prep]
+  · split
+    · split
+      · split
+        · simp [StrStep.prep]
+        · split <;> simp [StrStep.prep]
+      · split
+        · rw [noHigh_acc o (acc ++ [fffd]), noHigh_acc o ([] ++ [fffd])]
+          cases noHigh o [] pe _ _ _ <;> simp [StrStep.prep]
+        · simp [StrStep.prep]
+    · exact noHigh_acc o acc pe _ _ _
+
+theorem strEsc_acc (o : ParseOptions) (bad : Bool) (acc : List Char) (high : Option (Nat × Nat))
+    (r : List Char) (pos pn : Nat) :
+    strEsc o bad acc high r pos pn = (strEsc o bad [] high r pos pn).prep acc := by
+  unfold strEsc
+  split
+  · simp [StrStep.prep]
+  · split
+    · exact strEscU_acc o bad acc high _ _ _
+    · split
+      · exact flushChar_acc o acc high _ _ _ _
+      · simp [StrStep.prep]
+
+theorem strStep_acc (o : ParseOptions) (bad : Bool) (acc : List Char) (high : Option (Nat × Nat))
+    (l : List Char) (pos : Nat) :
+    strStep o bad acc high l pos = (strStep o bad [] high l pos).prep acc := by
+  unfold strStep
+  split
+  · simp [StrStep.prep]
+  · split
+    · split
+      · simp [StrStep.prep]
+      · split <;> simp [StrStep.prep]
+    · split
+      · exact strEsc_acc o bad acc high _ _ _
+      · split
+        · simp [StrStep.prep]
+        · exact flushChar_acc o acc high _ _ _ _
+
+def strLoopFast (o : ParseOptions) (bad : Bool) :
+    List Char → List Char → Option (Nat × Nat) → List Char → Nat →
+      Except PErr (List Char × List Char × Nat × Nat)
+  | fuel, racc, high, l, pos =>
+    match strStep o bad [] high l pos with
+    | .done a r p q => .ok ((a.reverseAux racc).reverse, r, p, q)
+    | .err e => .error e
+    | .more a hi r p =>
+      match fuel with
+      | [] => .error .panic
+      | _ :: fuel' => strLoopFast o bad fuel' (a.reverseAux racc) hi r p
+
+theorem strLoopFast_eq (o : ParseOptions) (bad : Bool) :
+    ∀ (fuel racc : List Char) (high : Option (Nat × Nat)) (l : List Char) (pos : Nat),
+      strLoopFast o bad fuel racc high l pos = strLoopAux o bad fuel racc.reverse high l pos
+  | [], racc, high, l, pos => by
+    unfold strLoopFast strLoopAux
+    rw [strStep_acc o bad racc.reverse]
+    cases strStep o bad [] high l pos <;> simp [StrStep.prep, List.reverseAux_eq]
+  | _ :: fuel, racc, high, l, pos => by
+    unfold strLoopFast strLoopAux
+    rw [strStep_acc o bad racc.reverse]
+    cases h : strStep o bad [] high l pos with
+    | done a r p q => simp [StrStep.prep, List.reverseAux_eq]
+    | err e => simp [StrStep.prep]
+    | more a hi r p =>
+      simp only [StrStep.prep]
+      rw [strLoopFast_eq o bad fuel]
+      simp [List.reverseAux_eq]
+
+def strLoopAuxImpl (o : ParseOptions) (bad : Bool) (fuel acc : List Char) (high : Option (Nat × Nat))
+    (l : List Char) (pos : Nat) : Except PErr (List Char × List Char × Nat × Nat) :=
+  strLoopFast o bad fuel acc.reverse high l pos
+
+@[csimp] theorem strLoopAux_eq_impl : @strLoopAux = @strLoopAuxImpl := by
+  funext o bad fuel acc high l pos
+  simp [strLoopAuxImpl, strLoopFast_eq]
 
 def strLoop (o : ParseOptions) (bad : Bool) (acc : List Char) (high : Option (Nat × Nat))
     (l : List Char) (pos : Nat) : Except PErr (List Char × List Char × Nat × Nat) :=
